@@ -85,7 +85,13 @@ def run(replay=None):
     # narrowing as AST nodes do it: node.cast(s).cast(t)[.cast(u)] on references whose type set is still wide; every step
     # must be the intersection of the node's CURRENT type set with the argument (or a type error)
     from harness.drive import call_parser
-    nodes = [call_parser('expression', tx)[1] for tx in ('@x', 'a', 'xs[0]', 'm.f')]
+    nodes = []
+    for tx in ('@x', 'a', 'xs[0]', 'm.f'):
+        po, pobj = call_parser('expression', tx)
+        if po == 'ast':
+            nodes.append(pobj)
+        else:
+            rep.skip('expr_cast:cannot parse %s (%s)' % (tx, po))     # (a broken lattice can make even this fail)
     rq = rng('c20x')
 
     def step(node, t):
@@ -104,7 +110,7 @@ def run(replay=None):
             n1 = step(node, s1)
             if n1 is None:
                 continue
-            for t1 in (allv if (thorough or node is nodes[0]) else rq.sample(allv, 24)):
+            for t1 in (allv if (thorough or node is nodes[0]) else rq.sample(allv, 24)):   # noqa
                 n2 = step(n1, t1)
                 if n2 is not None and rq.random() < (0.2 if thorough else 0.03):
                     step(n2, rq.choice(allv))
